@@ -32,14 +32,14 @@ theorem tloc_call {σ σb : St} (t : Nat) (o : Outer) (g v ng ns : Nat)
   all_goals simp only [callEntry]
   all_goals repeat' split
   all_goals
-    refine ⟨?_, ?_, ?_, ?_, ?_, ?_, ?_, ?_, ?_, ?_, ?_, ?_, ?_, ?_, ?_, ?_, ?_, ?_, ?_, ?_, ?_, ?_⟩
+    refine ⟨?_, ?_, ?_, ?_, ?_, ?_, ?_, ?_, ?_, ?_, ?_, ?_, ?_, ?_, ?_, ?_, ?_, ?_, ?_, ?_, ?_, ?_, ?_⟩
   all_goals first
     | (simp_all [St.goto, St.gotoF, St.flush, St.setTh, St.setHd, upd, kindOk, Outer.mk,
         PC.sendOp, PC.singleSendX, PC.singleSend, PC.recvOp, PC.recvActive, PC.viewPC, PC.cloneS, PC.remPC, PC.afterNew,
-        PC.addPC, PC.kOK, PC.newPath, Outer.futConv, Outer.viewCall, newHd, newHd0, Th.creating]; done)
+        PC.addPC, PC.kOK, PC.newPath, PC.sgFlag, Th.sgOn, Outer.futConv, Outer.viewCall, newHd, newHd0, Th.creating]; done)
     | (rename_i vw; cases vw <;> simp_all [St.goto, St.gotoF, St.flush, St.setTh, St.setHd, upd, kindOk, Outer.mk,
         PC.sendOp, PC.singleSendX, PC.singleSend, PC.recvOp, PC.recvActive, PC.viewPC, PC.cloneS, PC.remPC, PC.afterNew,
-        PC.addPC, PC.kOK, PC.newPath, Outer.futConv, Outer.viewCall, newHd, newHd0, Th.creating]; done)
+        PC.addPC, PC.kOK, PC.newPath, PC.sgFlag, Th.sgOn, Outer.futConv, Outer.viewCall, newHd, newHd0, Th.creating]; done)
 
 theorem callEntry_frame (σb : St) (t : Nat) (o : Outer) (g ng ns : Nat) :
     (callEntry σb t o g ng ns).sl = σb.sl ∧ (callEntry σb t o g ng ns).cl = σb.cl ∧
